@@ -250,7 +250,18 @@ def shard(ctx, budget_s, n_http, n_rpc, maxlen):
     streams = gen_streams(rng, n_http, n_rpc, maxlen)
     negs = negatives(rng, streams)
     rng.shuffle(negs)           # prefaced requests and single-fault requests alike
-    streams += negs[:8 if ctx.tier == "quick" else 32]
+    # ... but every fault class that depends on what shares a segment with what is present in every shard
+    must = []
+    for f in ("folded_header", "misspelt_http", "header_no_colon"):
+        p0 = next((p for k_, s_, t_, a_, p in streams if k_ == "http" and p is not None), None)
+        if p0 is not None:
+            must.append(("http_neg", http.fault(rng, p0, f) if f != "misspelt_http" else
+                         http.build(p0).replace(b" HTTP/", rng.choice([b" http/", b" Http/", b" hTTP/"]), 1), None, False, None))
+    streams += must + negs[:8 if ctx.tier == "quick" else 32]
+    # the time budget may end before the list does: no class of streams is always last
+    head, tail = streams[:1], streams[1:]
+    rng.shuffle(tail)
+    streams = head + tail
     hist = ctx.extra.setdefault("first_cut_histogram", {})
     for si, (kind, stream, trig, _ans, _p) in enumerate(streams):
         if time.time() > deadline and si > 0:
